@@ -3,6 +3,7 @@
 This module provides the Base Section class.
 """
 import operator
+import sys
 import uuid
 import warnings
 
@@ -600,8 +601,9 @@ class BaseSection(base.Sectionable):
         :param position: index at which the object should be inserted.
         :param obj: Section or Property object.
         """
-        # Refuse a position the list cannot use before anything is moved.
-        position = operator.index(position)
+        # Refuse a position the list cannot use before anything is moved;
+        # one beyond either end means that end, however far beyond.
+        position = max(-sys.maxsize, min(sys.maxsize, operator.index(position)))
 
         if isinstance(obj, BaseSection):
             if obj.name in self.sections:
